@@ -52,3 +52,13 @@ claim("C15",
       "equivalence that no golden exercises (two fixed defects were found by them); the arithmetic of the width tables is not decided by this check.",
       "json struct tags of schemas.Type name the keywords; the positional contract of NormalizeBounds",
       "DESIGN.md §2 C15")
+
+claim("C05",
+      "abstract interpretation (go/ssa) of NormalizeBounds over an exact order domain, exhaustive over presence x kind x relative order of the four bound keywords (C-NORM)",
+      "Decides, for every combination of presence/kind of minimum, maximum, exclusiveMinimum, exclusiveMaximum (boolean, numeric or non-numeric form) and every relative order of a "
+      "numeric exclusive bound and its inclusive partner, that the normalised (bound, exclusive) pair is the intersection of the stated bounds with exclusive winning a tie; both sides are "
+      "enumerated jointly (cross-talk visible). The function touches its arguments only through nil tests, a type switch and comparisons, so the abstraction is exact and the enumeration "
+      "complete (one fixed defect was found by it). The emitted comparison code for the normalised bounds is decided by the validator-skeleton rules when present (see evidence); "
+      "floating-point behaviour of math.Mod is not decided.",
+      "go/ssa lowering; no library summaries are used by NormalizeBounds",
+      "DESIGN.md §2 C05")
